@@ -49,7 +49,7 @@ class Module:
             self.tree = ast.parse(source, filename=relpath)
         except SyntaxError as exc:  # pragma: no cover
             raise AnalysisError(f'parse error in {relpath}: {exc}')
-        self.tree = orient_comparisons(split_conditional_callees(fold_dynamic_names(unroll_literal_loops(inline_string_constants(self.tree)))))
+        self.tree = orient_comparisons(split_conditional_callees(fold_dynamic_names(unroll_literal_loops(inline_string_constants(split_chained_assignments(suppress_to_try(wraps_call_to_decorator(inline_thunks(self.tree)))))))))
         if os.environ.get('COPSTAT_INLINE_TEMPS', '1') != '0':
             self.tree = inline_adjacent_temporaries(hoist_walrus(self.tree))
         if os.environ.get('COPSTAT_EXPAND_IFEXP', '1') != '0':
@@ -145,6 +145,136 @@ def _stmt_blocks(node):
             yield h, 'body', h.body
 
 
+def inline_thunks(tree):
+    """Normalisation: a nested `def name(): return <expr>` (no parameters, no decorators, a single return after the docstring, never
+    re-bound, only ever called as `name()` in the enclosing function itself) is removed and every `name()` becomes `<expr>`.
+    A closure reads the enclosing variables when it is called, which is where the expression now stands."""
+    import copy
+    for fn in [n for n in ast.walk(tree) if isinstance(n, (ast.FunctionDef, ast.AsyncFunctionDef))]:
+        for d in [s for s in fn.body if isinstance(s, ast.FunctionDef)]:
+            a = d.args
+            if a.args or a.posonlyargs or a.kwonlyargs or a.vararg or a.kwarg or d.decorator_list:
+                continue
+            body = d.body[1:] if d.body and isinstance(d.body[0], ast.Expr) and isinstance(d.body[0].value, ast.Constant) and isinstance(d.body[0].value.value, str) else d.body
+            if len(body) != 1 or not isinstance(body[0], ast.Return) or body[0].value is None:
+                continue
+            expr = body[0].value
+            if any(isinstance(x, (ast.Yield, ast.YieldFrom, ast.Await, ast.NamedExpr, ast.Lambda)) for x in ast.walk(expr)):
+                continue
+            refs = [x for s in fn.body if s is not d for x in ast.walk(s) if isinstance(x, ast.Name) and x.id == d.name]
+            calls = [x for s in fn.body if s is not d for x in ast.walk(s) if isinstance(x, ast.Call) and isinstance(x.func, ast.Name) and x.func.id == d.name
+                     and not x.args and not x.keywords]
+            # calls inside other nested functions would read *their* enclosing variables the same way, but keep it simple: top-level statements only
+            nested_refs = [x for s in fn.body if s is not d and isinstance(s, (ast.FunctionDef, ast.AsyncFunctionDef, ast.ClassDef)) for x in ast.walk(s)
+                           if isinstance(x, ast.Name) and x.id == d.name]
+            if not calls or len(refs) != len(calls) or nested_refs or any(isinstance(x.ctx, ast.Store) for x in refs):
+                continue
+            # the definition must come before its calls in the body (it always does for working code) and not sit under a condition
+            class Sub(ast.NodeTransformer):
+                def visit_Call(self, n):
+                    self.generic_visit(n)
+                    if isinstance(n.func, ast.Name) and n.func.id == d.name and not n.args and not n.keywords:
+                        e = copy.deepcopy(expr)
+                        for x in ast.walk(e):
+                            ast.copy_location(x, n)
+                        return e
+                    return n
+            new_body = []
+            for s in fn.body:
+                if s is d:
+                    continue
+                new_body.append(Sub().visit(s))
+            fn.body = new_body
+    ast.fix_missing_locations(tree)
+    return tree
+
+
+def wraps_call_to_decorator(tree):
+    """Normalisation: `def inner(...): ...` followed (in the same function) by `return functools.wraps(f)(inner)` becomes
+    `@functools.wraps(f) def inner` and `return inner` (update_wrapper returns the wrapper it was given)."""
+    local, mods = set(), set()
+    for n in tree.body:
+        if isinstance(n, ast.ImportFrom) and n.module == 'functools':
+            local |= {a.asname or a.name for a in n.names if a.name == 'wraps'}
+        elif isinstance(n, ast.Import):
+            mods |= {a.asname or a.name for a in n.names if a.name == 'functools'}
+    if not local and not mods:
+        return tree
+
+    def is_wraps(c):
+        return isinstance(c, ast.Call) and len(c.args) == 1 and not c.keywords and (
+            (isinstance(c.func, ast.Name) and c.func.id in local) or
+            (isinstance(c.func, ast.Attribute) and c.func.attr == 'wraps' and isinstance(c.func.value, ast.Name) and c.func.value.id in mods))
+    for fn in [n for n in ast.walk(tree) if isinstance(n, (ast.FunctionDef, ast.AsyncFunctionDef))]:
+        inner = {s.name: s for s in fn.body if isinstance(s, ast.FunctionDef)}
+        for st in fn.body:
+            v = st.value if isinstance(st, ast.Return) else None
+            if isinstance(v, ast.Call) and is_wraps(v.func) and len(v.args) == 1 and not v.keywords and isinstance(v.args[0], ast.Name) and v.args[0].id in inner:
+                d = inner[v.args[0].id]
+                # the decorator argument must mean the same at the def as at the return: a parameter of the outer function never re-bound
+                arg = v.func.args[0]
+                rebound = {x.id for x in ast.walk(fn) if isinstance(x, ast.Name) and isinstance(x.ctx, ast.Store)}
+                if isinstance(arg, ast.Name) and arg.id not in rebound and not d.decorator_list:
+                    d.decorator_list = [v.func]
+                    st.value = ast.copy_location(ast.Name(id=d.name, ctx=ast.Load()), v)
+    ast.fix_missing_locations(tree)
+    return tree
+
+
+def suppress_to_try(tree):
+    """Normalisation: `with contextlib.suppress(E, ...): body` (one item, no `as`) becomes `try: body / except (E, ...): pass`."""
+    local = set()      # names bound to contextlib.suppress in this module
+    mods = set()       # names bound to the contextlib module
+    for n in tree.body:
+        if isinstance(n, ast.ImportFrom) and n.module == 'contextlib':
+            local |= {a.asname or a.name for a in n.names if a.name == 'suppress'}
+        elif isinstance(n, ast.Import):
+            mods |= {a.asname or a.name for a in n.names if a.name == 'contextlib'}
+    if not local and not mods:
+        return tree
+    for node in list(ast.walk(tree)):
+        for holder, f, blk in list(_stmt_blocks(node)):
+            out = []
+            for st in blk:
+                ce = st.items[0].context_expr if isinstance(st, ast.With) and len(st.items) == 1 and st.items[0].optional_vars is None else None
+                is_sup = isinstance(ce, ast.Call) and not ce.keywords and ce.args and (
+                    (isinstance(ce.func, ast.Name) and ce.func.id in local) or
+                    (isinstance(ce.func, ast.Attribute) and ce.func.attr == 'suppress' and isinstance(ce.func.value, ast.Name) and ce.func.value.id in mods))
+                if is_sup and not any(isinstance(a, ast.Starred) for a in ce.args):
+                    typ = ce.args[0] if len(ce.args) == 1 else ast.Tuple(elts=list(ce.args), ctx=ast.Load())
+                    h = ast.ExceptHandler(type=typ, name=None, body=[ast.copy_location(ast.Pass(), st)])
+                    out.append(ast.copy_location(ast.Try(body=st.body, handlers=[ast.copy_location(h, st)], orelse=[], finalbody=[]), st))
+                else:
+                    out.append(st)
+            setattr(holder, f, out)
+    ast.fix_missing_locations(tree)
+    return tree
+
+
+def split_chained_assignments(tree):
+    """Normalisation: `a.x = name = <expr>` (one of the targets a plain local name) becomes `name = <expr>` followed by the other targets
+    bound to `name`.  The value is evaluated once in both forms; only the order in which the targets are bound differs, which is
+    unobservable for plain names and ordinary attributes."""
+    for node in list(ast.walk(tree)):
+        for holder, f, blk in list(_stmt_blocks(node)):
+            if not any(isinstance(st, ast.Assign) and len(st.targets) > 1 for st in blk):
+                continue
+            out = []
+            for st in blk:
+                names = [t for t in st.targets if isinstance(t, ast.Name)] if isinstance(st, ast.Assign) and len(st.targets) > 1 else []
+                if names and all(isinstance(t, (ast.Name, ast.Attribute, ast.Subscript)) for t in st.targets):
+                    first = names[0]
+                    out.append(ast.copy_location(ast.Assign(targets=[first], value=st.value), st))
+                    for t in st.targets:
+                        if t is not first:
+                            out.append(ast.copy_location(ast.Assign(targets=[t], value=ast.copy_location(ast.Name(id=first.id, ctx=ast.Load()), st)), st))
+                else:
+                    out.append(st)
+            setattr(holder, f, out)
+    ast.fix_missing_locations(tree)
+    return tree
+
+
 def hoist_walrus(tree):
     """Normalisation: `if <test whose first evaluated operand is (x := e)>:` becomes `x = e` followed by the test reading `x`.
     Only `if` statements (a `while` test is re-evaluated) and only the leftmost evaluation position, so the order of evaluation is kept."""
@@ -160,9 +290,17 @@ def hoist_walrus(tree):
             return leftmost(e, 'values', 0)
         if isinstance(e, ast.BinOp):
             return leftmost(e, 'left')
-        if isinstance(e, ast.Call) and e.args and not isinstance(e.args[0], ast.Starred) and \
-                (isinstance(e.func, ast.Name) or (isinstance(e.func, ast.Attribute) and isinstance(e.func.value, ast.Name))):
-            return leftmost(e, 'args', 0)
+        if isinstance(e, ast.Call):
+            if isinstance(e.func, ast.Attribute):
+                hit = leftmost(e.func, 'value')        # the callee expression is evaluated before the arguments
+                if hit is not None:
+                    return hit
+            plain = e.func
+            while isinstance(plain, ast.Attribute):
+                plain = plain.value
+            if isinstance(plain, ast.Name) and e.args and not isinstance(e.args[0], ast.Starred):
+                return leftmost(e, 'args', 0)
+            return None
         if isinstance(e, ast.Attribute):
             return leftmost(e, 'value')
         if isinstance(e, ast.Subscript):
@@ -662,6 +800,19 @@ def unroll_literal_loops(tree):
                     return ast.copy_location(ast.List(elts=elts, ctx=ast.Load()), node)
             return node
 
+        def visit_DictComp(self, node):
+            self.generic_visit(node)
+            # {k: f(k) for k in ('a', 'b')} over a literal tuple of constants -> {'a': f('a'), 'b': f('b')}
+            if len(node.generators) == 1 and not node.generators[0].ifs and not node.generators[0].is_async \
+                    and isinstance(node.generators[0].target, ast.Name):
+                vals = literal_of(self.fn, node.generators[0].iter, self.cls)
+                if vals and all(isinstance(v, (str, int)) for v in vals) and len(set(vals)) == len(vals):
+                    name = node.generators[0].target.id
+                    keys = [Subst(name, v).visit(copy.deepcopy(node.key)) for v in vals]
+                    values = [Subst(name, v).visit(copy.deepcopy(node.value)) for v in vals]
+                    return ast.copy_location(ast.Dict(keys=keys, values=values), node)
+            return node
+
         def visit_GeneratorExp(self, node):
             self.generic_visit(node)
             # (f(k) for k in ('a', 'b')) consumed by tuple unpacking / tuple() / dict.update: the same elements, in order
@@ -681,7 +832,18 @@ def unroll_literal_loops(tree):
                     (isinstance(node.func, ast.Attribute) and node.func.attr in ('update', 'extend', 'column_stack'))) and len(node.args) == 1 \
                     and isinstance(node.args[0], ast.GeneratorExp):
                 node.args[0]._unroll_ok = True
+            for a in node.args:
+                if isinstance(a, ast.Starred) and isinstance(a.value, ast.GeneratorExp):
+                    a.value._unroll_ok = True       # f(*(g(k) for k in ('a', 'b'))): the elements, in order, exactly once
             self.generic_visit(node)
+            if any(isinstance(a, ast.Starred) and isinstance(a.value, (ast.List, ast.Tuple)) for a in node.args):
+                flat = []
+                for a in node.args:
+                    if isinstance(a, ast.Starred) and isinstance(a.value, (ast.List, ast.Tuple)) and not any(isinstance(e, ast.Starred) for e in a.value.elts):
+                        flat.extend(a.value.elts)
+                    else:
+                        flat.append(a)
+                node.args = flat
             # d.update([(k1, v1), (k2, v2)]) / dict([(k1, v1), ...])  ->  with a dict literal
             if ((isinstance(node.func, ast.Attribute) and node.func.attr == 'update') or (isinstance(node.func, ast.Name) and node.func.id == 'dict')) \
                     and len(node.args) == 1 and not node.keywords and isinstance(node.args[0], ast.List) and node.args[0].elts \
